@@ -41,6 +41,13 @@ const (
 	zzBadDefs  = `{"$id": "https://example.com/bad", "type": "object", "definitions": {"A": {"type": "string"}, "B": {"type": 7}}}`
 	zzBadDefs2 = `{"$id": "https://example.com/bad", "type": "object", "$defs": {"A": {"required": "sku"}}}`
 	zzBadProps = `{"$id": "https://example.com/bad", "type": "object", "properties": {"p": {"properties": []}}}`
+	// a file that cannot be parsed, referenced first from an allOf/anyOf branch (where a
+	// resolution failure is only a warning) and needed again afterwards
+	zzUsesTwice = `{"$id": "https://example.com/uses", "type": "object", "properties": {
+	  "a": {"allOf": [{"$ref": "malformed.json"}, {"type": "object", "properties": {"k": {"type": "string"}}}]},
+	  "z": {"$ref": "malformed.json"}}}`
+	zzUsesAnyOf = `{"$id": "https://example.com/uses2", "type": "object", "properties": {
+	  "a": {"anyOf": [{"$ref": "baddefs.json"}, {"type": "object", "properties": {"k": {"type": "string"}}}]}}}`
 	zzBadItems = `{"$id": "https://example.com/bad", "type": "object", "properties": {"p": {"type": "array", "items": {"minLength": "3"}}}}`
 )
 
@@ -53,6 +60,8 @@ func zzFilesAt(dir string) {
 }
 
 func zzFiles() {
+	zzvrt.VFileData(zzIn+"/usestwice.json", zzUsesTwice)
+	zzvrt.VFileData(zzIn+"/usesanyof.json", zzUsesAnyOf)
 	zzvrt.VFileData(zzIn+"/baddefs.json", zzBadDefs)
 	zzvrt.VFileData(zzIn+"/baddefs2.json", zzBadDefs2)
 	zzvrt.VFileData(zzIn+"/badprops.json", zzBadProps)
@@ -76,7 +85,7 @@ func HarnessCLIDeterminism() {
 	zzIn := zzDirs[zzvrt.Choice(len(zzDirs))]
 	zzFilesAt(zzIn)
 	args := []string{zzIn + "/widget.json"}
-	sc := zzvrt.Choice(zzvrt.Param("SCENARIOS", 7))
+	sc := zzvrt.Choice(zzvrt.Param("SCENARIOS", 8))
 	switch sc {
 	case 0: // no mapping, standard output
 	case 1: // one schema, package and output mapped under the same key
@@ -96,6 +105,11 @@ func HarnessCLIDeterminism() {
 	case 5: // two schemas, one default output file
 		args = []string{zzIn + "/gadget.json"}
 		defaultOutput = zzOut + "/all.go"
+	case 7: // two ids with DIFFERENT sets of mapping flags: output only / package and root type only
+		args = []string{zzIn + "/gadget.json"}
+		schemaOutputs = []string{"https://example.com/widget#=" + zzOut + "/w/widget.go"}
+		schemaPackages = []string{"https://example.com/gadget=example.com/gadgets"}
+		schemaRootTypes = []string{"https://example.com/gadget=TheGadget"}
 	default: // two schemas: one to a file, the other to standard output
 		args = []string{zzIn + "/widget.json", zzIn + "/gadget.json"}
 		schemaOutputs = []string{"https://example.com/gadget=" + zzOut + "/g/gadget.go"}
@@ -104,6 +118,13 @@ func HarnessCLIDeterminism() {
 	zzvrt.Cover(fmt.Sprintf("cli-scenario:%d", sc))
 	zzvrt.Emit("outcome.txt", fmt.Sprintf("exit=%d\n%s", code, zzvrt.Outcome()))
 	zzvrt.Check("C12.cli.run-succeeds", code == 0)
+	if sc == 7 {
+		// C20: every mapping applies to its own id only
+		zzvrt.Check("C20.cli.each-mapping-applies-to-its-own-schema-only", code == 0 &&
+			strings.Contains(zzvrt.WrittenFile(zzOut+"/w/widget.go"), "type WidgetJson struct") &&
+			!strings.Contains(zzvrt.WrittenFile(zzOut+"/w/widget.go"), "TheGadget") &&
+			len(zzvrt.WrittenFiles()) == 1 && zzvrt.Stdout() == "") // (a mapping without output: referenced, not written)
+	}
 }
 
 // HarnessCLIFailures (C18): a run either succeeds completely (status 0, output complete) or
@@ -121,7 +142,13 @@ func HarnessCLIFailures() {
 	}
 	var args []string
 	fault := ""
-	switch zzvrt.Choice(10) {
+	switch zzvrt.Choice(12) {
+	case 10:
+		fault = "unparsable-file-referenced-from-allOf-and-again-by-a-property"
+		args = []string{zzIn + "/usestwice.json"}
+	case 11:
+		fault = "unparsable-file-referenced-from-anyOf-and-again-on-the-command-line"
+		args = []string{zzIn + "/usesanyof.json", zzIn + "/baddefs.json"}
 	case 0:
 		fault = "none"
 		args = []string{good}
